@@ -572,3 +572,26 @@ Theorem C16_marshal_map_code_is_enc : forall o st, enc_view st o ->
   enc o v key <> Panic.
 Proof. exact marshal_map_code_is_enc_translated. Qed.
 Print Assumptions C16_marshal_map_code_is_enc.
+
+(* ---- "the indented encoders differ from the compact ones only in inter-element whitespace", on the translated code: the Map
+   encoder run with doIndent = true (translated from the current sources, with the translated pretty.Indent / Outdent) writes the
+   items of the compact mode, each byte for byte as in the compact mode, with pads (newlines, the prefix followed by copies of the
+   indent) in the gaps between them (GenProofs/PureG28.v; repaired code: /repo 77c834d) *)
+From Mxj Require GenProofs.PureG28.
+
+Theorem C16_marshal_map_indent_code_insert_ws : forall o st, PureG18.enc_view st o ->
+  forall prefix indent m t i c p m' t', PureG28.pp_reach st prefix indent m t (i, c, p, m', t') ->
+  forall xm xmi v f key b its, vdepth v <= f -> PureG18.text_dom o v = true -> enc o v key = Ok its ->
+  exists ws,
+    fn_marshalMapToXmlIndent (PureG15.run_escapeChars st) (PureG28.run_Indent st) (PureG28.run_Outdent st) PureG18.sort_rows PureG18.sort_vrows xm xmi f st true b key v i c p m' t' =
+    Ret (None, (b ++ emit (Items.insert_ws ws its), i, c, p, m', t')) /\
+    (forall j, PureG28.pad_ok prefix indent (ws j)) /\
+    (forall o', Items.ws_str o' prefix = true -> Items.ws_str o' indent = true -> Items.ws_str o' PureG28.nl_str = true -> Items.ws_ok o' ws).
+Proof. exact PureG28.marshal_map_indent_code_insert_ws. Qed.
+Print Assumptions C16_marshal_map_indent_code_insert_ws.
+
+Theorem C16_pad_is_xml_whitespace : forall prefix indent,
+  PureG28.xml_wsb prefix = true -> PureG28.xml_wsb indent = true ->
+  (forall w, PureG28.pad_ok prefix indent w -> PureG28.xml_wsb w = true) /\ (forall k, PureG28.xml_wsb (PureG28.pdg prefix indent k) = true).
+Proof. exact PureG28.pad_is_xml_whitespace. Qed.
+Print Assumptions C16_pad_is_xml_whitespace.
